@@ -3,6 +3,7 @@ from lib import *
 from itertools import permutations
 
 PROP = "C04"
+PAR_OK = True
 LEVEL = "proof"
 RULE = ("index: random multifurcating trees (3..40 tips, occasionally 63/64/65/128/129; rooted/unrooted; parent slot anywhere; "
         "byte-wise tricky tip names incl. bytes >= 0x80, prefixes, digits; a few with duplicated names, a few whose root has a single neighbour [correspondence only]) -> every table of every branch; "
